@@ -128,6 +128,7 @@ struct Shm {
 	char     plan[SHM_PLAN_MAX];
 };
 extern Shm* g_shm;                      // set in the child
+extern uint64_t g_run_index;            // index of the run within the batch (systematic enumerations use it)
 
 inline void count(Counter c, uint64_t n = 1) { if (g_shm) g_shm->counters[c] += n; }
 void note_case(uint64_t hash);         // a distinct non-trivial case
